@@ -448,11 +448,15 @@ class simplify_chained_calls(FuncADLNodeTransformer):
         """
         if type(call_node.func) is ast.Lambda and _is_plain_positional_lambda_call(call_node):
             arg_asts = [self.visit(a) for a in call_node.args]
+            # Give the parameters names that are used nowhere else: an argument that mentions a
+            # variable called like one of the parameters must not be substituted a second time
+            # when the result is looked at again.
+            func = make_args_unique(call_node.func)
             with stack_frame(self._arg_stack):
-                for a_name, arg in zip(call_node.func.args.args, arg_asts):
+                for a_name, arg in zip(func.args.args, arg_asts):
                     self._arg_stack.define_name(a_name.arg, arg)
                 # Now, evaluate the expression, and then lift it.
-                return self.visit(call_node.func.body)
+                return self.visit(func.body)
         elif _is_method_call_on_first(call_node):
             return self.select_method_call_on_first(call_node)
         else:
